@@ -283,6 +283,20 @@ CLAIMS["C05"]["text"] += (" Translator tie (harness/py2coq_state.py, fail-closed
                           "no-failing-input-found.")
 
 
+def _index_tie():
+    import translated
+    return translated.index_tie()
+
+
+CLAIMS["C17"]["ties"] = (_index_tie,)
+CLAIMS["C17"]["technique"] += " + source-to-Gallina translator tie for IndexMarket.compute_market_index / compute_fundamental_index (regenerated and re-proved every run)"
+CLAIMS["C17"]["text"] += (" Translator tie (harness/py2coq_state.py): IndexMarket.compute_market_index and compute_fundamental_index are REGENERATED from /repo's source on every "
+                          "run (two accumulators over the components, then a division) and coq/translated/IndexC17Proofs.v is re-checked against the generated text: given the values read "
+                          "from the components, the generated function is the model's wavg (the function the C17 theorems and every step record of an index market are about), it is "
+                          "(sum value_i x shares_i)/(sum shares_i), and it raises ZeroDivisionError exactly when the shares sum to zero. At every step record the harness also asks the real "
+                          "index with an explicit time (now, the step before, time 0) and compares it with the components' own prices at that time.")
+
+
 def c07_determinism(seed, tier, cov):
     """differential determinism test: each configuration is run in fresh processes under different interpreter hash seeds, with
     Python's and NumPy's global generators perturbed, and twice in one process; everything observable must hash the same"""
